@@ -16,7 +16,7 @@ LEVEL = 'exploration'
 CLASSES = ['tiny', 'no_control', 'no_treatment', 'all_excluded', 'empty_admitted', 'size_beyond',
            'ratio_unsat', 'share_budget_impossible', 'n_geos_max_2', 'long_test', 'window_exact',
            'hostile_matrix', 'iroas_zero', 'fixed_overflow', 'integral_floats', 'late_start_geo', 'huge_tolerance', 'orthogonal',
-           'wide_index', 'random']
+           'wide_index', 'subset_table_ngeos', 'random']
 RULE = ('Each case draws one hostile input class (%s), builds fresh data / parameter / matched-markets '
         'objects and runs exhaustive_search and greedy_search at the client boundary. Series are never '
         'constant and the analysis window always holds >= n_test + 3 points, so the property applies to '
@@ -60,6 +60,15 @@ def make_hostile(r, g, cls, tier):
     return make_orthogonal(r, g)
   if cls == 'wide_index':
     return make_wide_index(r, g)
+  if cls == 'subset_table_ngeos':
+    # the eligibility table covers only some of the geos in the data, and n_geos_max binds
+    G = r.randrange(4, maxg + 1)
+    case = sl.make_case(r, g, G, elig_extra='subset', elig_mode=r.choice(['mixed', 'mostly_ctx', 'ctx', 'hostile']))
+    case['params']['n_geos_max'] = r.randrange(2, G - 1)
+    for k_ in ('budget_range', 'treatment_share_range'):
+      if r.random() < 0.7:
+        case['params'].pop(k_, None)
+    return case
   case = sl.make_case(r, g, G, elig_extra='none', **kwargs)
   ids = [str(i) for i in case['panel']['ids']]
   kw = case['params']
